@@ -141,10 +141,60 @@ def _contain(c, container, depth=0):
     return inner
 
 
+_ATTR_KIND = [0]
+
+
+def _attr_object(tag, coords):
+    """An object exposing ``type`` and ``coordinates`` as attributes, the ways objects do: a namespace, a plain instance,
+    a dataclass, a slotted class, a named tuple (a database row), a class attribute plus a property (an ORM adapter)."""
+    import collections
+    import dataclasses
+
+    _ATTR_KIND[0] += 1
+    k = _ATTR_KIND[0] % 7
+    if k == 1:
+        class Shape:
+            pass
+        o = Shape(); o.type = tag; o.coordinates = coords
+        return o
+    if k == 2:
+        return dataclasses.make_dataclass("Row", [("type", str), ("coordinates", object)])(tag, coords)
+    if k == 3:
+        class Slotted:
+            __slots__ = ("type", "coordinates")
+
+            def __init__(self, t, c):
+                self.type, self.coordinates = t, c
+        return Slotted(tag, coords)
+    if k == 4:
+        return collections.namedtuple("Record", ["type", "coordinates"])(tag, coords)
+    if k == 5:
+        class Adapter:
+            type = tag
+
+            def __init__(self, c):
+                self._c = c
+
+            @property
+            def coordinates(self):
+                return self._c
+        return Adapter(coords)
+    if k == 6:
+        class Lazy:
+            def __getattr__(self, name):
+                if name == "type":
+                    return tag
+                if name == "coordinates":
+                    return coords
+                raise AttributeError(name)
+        return Lazy()
+    return SimpleNamespace(type=tag, coordinates=coords)
+
+
 def _attempt(path, tag, coords, container="list"):
     from soundevent import data
 
-    cls = data.geometries.GEOMETRY_MAPPING[tag]
+    cls = getattr(data, tag)        # the stock class of that name
     if path != "json":
         coords = _contain(copy.deepcopy(coords), container)
     try:
@@ -153,7 +203,7 @@ def _attempt(path, tag, coords, container="list"):
         if path == "dict":
             return "ok", data.geometry_validate({"type": tag, "coordinates": copy.deepcopy(coords)}, mode="dict")
         if path == "attributes":
-            return "ok", data.geometry_validate(SimpleNamespace(type=tag, coordinates=copy.deepcopy(coords)), mode="attributes")
+            return "ok", data.geometry_validate(_attr_object(tag, copy.deepcopy(coords)), mode="attributes")
         return "ok", data.geometry_validate(json.dumps({"type": tag, "coordinates": coords}), mode="json")
     except Exception as e:  # classified below
         return "exc", e
